@@ -248,9 +248,9 @@ def main(tier):
             if m["no_cr"]:
                 jobs.append((d, o, "to_crlf", m["crlf"]))
                 jobs.append((d, o, "to_cr", m["cr"]))
-                # mixed endings inside front matter are C20's subject (DESIGN F9): keep the option out of this variant
-                om = {k2: v for k2, v in o.items() if k2 != "front_matter_delimiter"}
-                jobs.append((d, om, "mixed", mixed_eol(rng, d)))
+                # mixed endings inside front matter too: since the repair of the splitter (known_findings C20 F9/F11, fixed)
+                # front matter is cut by lines whatever their endings
+                jobs.append((d, o, "mixed", mixed_eol(rng, d)))
             if not m["ends_nl"]:
                 jobs.append((d, o, "add_final_nl", m["final_nl"]))   # the empty text included: the property text has no exception for it
             jobs.append((d, o, "nul_to_fffd", m["nul"]))
@@ -297,20 +297,12 @@ def main(tier):
         if name == "prepend_bom" and o.get("sourcepos") and strip_sourcepos(hv) == strip_sourcepos(hb):
             c.known_hit("bom_sourcepos", case)
             continue
-        if name == "to_cr" and o.get("front_matter_delimiter"):
-            pending_known.append(("front_matter_cr_only", case, (x, o, tx, vo)))
-            continue
         c.violation(f"html({name} x) != html(x)", case)
 
     # the byte predicates of the classes are the extracted Coq ones
     q = [("known_above_floor", t) for cl, _, t in pending_known if cl == "ref_budget_above_floor"] + \
         [("known_bom_on_bom", t) for cl, _, t in pending_known if cl == "bom_on_bom"]
     qa = dict(zip(q, vlib.run_lines(drv, [f"{fn} {hx(t)}" for fn, t in q])))
-    # F11: front matter is recognised in x (it opens with the delimiter line) but the option has no effect at all on the
-    # CR-only copy: html(to_cr x, opts) == html(to_cr x, opts without the option).  Nothing else may differ.
-    fm_jobs = [t for cl, _, t in pending_known if cl == "front_matter_cr_only"]
-    fm_out = vlib.run_lines(vh, [html_line({k: v for k, v in o.items() if k != "front_matter_delimiter"}, tx) for (_, o, tx, _) in fm_jobs])
-    fm_out = {(docgen.opts_token(o), tx): r for (_, o, tx, _), r in zip(fm_jobs, fm_out)}
     for cl, case, t in pending_known:
         if cl == "ref_budget_above_floor":
             if qa.get(("known_above_floor", t)) == "ok 1":
@@ -322,13 +314,29 @@ def main(tier):
                 c.known_hit(cl, case)
             else:
                 c.violation("html(prepend_bom x) != html(x)", case)
-        else:
-            x, o, tx, vo = t
-            opens = bool(re.match(rb"(?:\xef\xbb\xbf)?" + re.escape(o["front_matter_delimiter"].encode()) + rb"\n", x))
-            if opens and fm_out[(docgen.opts_token(o), tx)] == vo:
-                c.known_hit(cl, case)
-            else:
-                c.violation("html(to_cr x) != html(x) with the front matter option on, and not explained by the CR-only delimiter line being unrecognised", case)
+
+    # repaired classes (status fixed suppresses nothing): the recorded witness is replayed and must render as recorded
+    import json as _json
+    with open(vlib.os.path.join(vlib.ROOT, "known_findings.json")) as f:
+        fixed = [e for e in _json.load(f)["findings"] if e["property"] == "C08" and e["status"] == "fixed" and isinstance(e.get("witness"), dict) and "expected_html" in e["witness"]]
+    rows = []
+    for e in fixed:
+        w = e["witness"]
+        x = unhx(w["input"])
+        tx = {"to_cr": x.replace(b"\n", b"\r"), "to_crlf": x.replace(b"\n", b"\r\n")}[w["rewrite"]]
+        for okey, hkey in (("opts", "expected_html"), ("opts_sourcepos", "expected_html_sourcepos")):
+            if okey not in w:
+                continue
+            outs = vlib.run_lines(vh, [f"md html {w[okey]} {hx(y)}" for y in (x, tx)])
+            got = [unhx(a.split(" ")[1]).decode("utf-8", "replace") if a.startswith("ok ") and len(a.split(" ")) > 1 else a for a in outs]
+            c.count(("fixed-witness:" + e["id"] + okey).encode(), True)
+            good = got[0] == w[hkey] and got[1] == w[hkey]
+            rows.append({"id": e["id"], "class": e["class"], "opts": w[okey], "passes": good})
+            if not good:
+                c.violation(f"the witness of the repaired class {e['class']} ({e['id']}, {e.get('commit')}) does not render as recorded: the repair is missing from this tree or the defect has returned",
+                            {"rewrite": w["rewrite"], "opts": w[okey], "input": w["input"], "rewritten": hx(tx), "expected_html": w[hkey], "observed_html_x": got[0][:600], "observed_html_rewritten": got[1][:600],
+                             "line": f"md html {w[okey]} {hx(tx)}"})
+    c.cov["spec_checks"]["witnesses of repaired classes render as recorded"] = rows
     c.cov["metamorphic"] = stats
     c.cov["spec_checks"]["impl html(T x) == impl html(x) (byte identity) outside the known classes"] = len(jobs)
     c.cov["samples"].append({"op": "md html", "rewrite": jobs[0][2], "opts": docgen.opts_token(jobs[0][1]), "input": hx(jobs[0][0]), "rewritten": hx(jobs[0][3]), "html": var_out[0][:300]})
@@ -355,7 +363,7 @@ def main(tier):
         "equal lines + equal budget => equal HTML is not proved (the block and inline parsers are not modelled): factorisation theorems quantify over the rest of the pipeline; checked by the metamorphic search",
         "empty text vs one line feed: different line sequences (C08_lines_final_nl_refuted); the HTML identity is observed only",
         "BOM: proved that the block parser reads the same bytes from the first line's starting offset (C08_seen_lines_bom_partial); that offset 3 behaves like a stripped prefix inside the block parser is observed only; refuted for texts that already start with a mark (class bom_on_bom) and the sourcepos columns count the mark (class bom_sourcepos)",
-        "front matter is outside the model (C20); CR-only front matter is class front_matter_cr_only (DESIGN F11)",
+        "front matter is outside the model of this property (C20 proves the splitter is the line-based specification for LF, CR LF and bare CR; the former class front_matter_cr_only, DESIGN F11, is repaired and its witness is replayed)",
         "documents longer than the reference budget floor: precondition of the factorisation theorems (class ref_budget_above_floor, DESIGN F18)",
     ]
     c.assumptions = [
